@@ -232,6 +232,19 @@ def ticket_scripts(rng, n):
     return out
 
 
+def long_scripts(rng, n):
+    """long sequences of controls: whatever holds for eight controls holds for thirty"""
+    out = []
+    ops = PLAIN + GRACEFUL + ["run", "start", "start", "to_wait"]
+    ops = [o for o in ops if o not in ("delete", "delete_now")]
+    for i in range(n):
+        s = rand_script(rng, "L%05d" % i, ops, rng.randrange(15, 32), KIDS_TIMING + KIDS_FAULT, waiters=(1, 1, 2))
+        s["origin"] = "long"
+        s["kids"] = [rng.choice(KIDS_TIMING + KIDS_FAULT) for _ in range(12)]
+        out.append(s)
+    return out
+
+
 def mixed_scripts(rng, n, maxlen=8):
     out = []
     ops = PLAIN + GRACEFUL + ["run", "start", "start"]
